@@ -95,6 +95,51 @@ theorem postfix_roundtrip {V : Type} (S : Sem V) (tbl : Table) (e : Expr) (he : 
   simp only [List.append_nil] at this
   rw [this]; cases evalTree S e <;> simp [rpn]
 
+/-- the same for **every loaded formula**, whatever text it was loaded from: if `Function.parse` accepts a token list
+    and builds `e`, then parsing the postfix form of `e` gives `e` again, and the value of `e` is the value of that
+    postfix form read as a reverse-Polish program (for any meaning of leaves and elements) -/
+theorem loaded_postfix_roundtrip (tbl : Table) (hT : tbl.WellFormed) (toks : List String) (e : Expr)
+    (h : parseFormula tbl toks = .ok e) :
+    parsePostfix tbl (e.pfx.map Tok.str) = .ok e ∧
+    ∀ {V : Type} (S : Sem V), rpn S e.pfx [] = (evalTree S e).map (fun v => [v]) := by
+  unfold parseFormula at h
+  cases hp : toPostfix tbl toks with
+  | error k => rw [hp] at h; cases h
+  | ok p =>
+    rw [hp] at h
+    unfold toPostfix at hp
+    cases hs : sy (toks.map (classify tbl)) [] [] with
+    | error k => rw [hs] at hp; cases hp
+    | ok out =>
+      rw [hs] at hp
+      simp only [Except.map, Except.ok.injEq] at hp; subst hp
+      have hfix : ∀ t ∈ out, Tok.Fix tbl t ∧ ∀ f, t = .el f → f.arity ≤ 2 := by
+        refine Op.sy_mem _ _ _ _ hs _ ?_ (by simp) (by simp)
+        intro t ht
+        obtain ⟨s, _, rfl⟩ := List.mem_map.1 ht
+        refine ⟨classify_fix tbl s, fun f hf => ?_⟩
+        obtain ⟨r, hm, he⟩ := classify_el hf
+        rw [← he]; exact hT.2.2.2.2.2 r hm
+      simp only [parsePostfix] at h
+      rw [map_fix (fun t ht => (hfix t ht).1)] at h
+      unfold parsePostfixTok at h
+      cases hb : build out [] with
+      | error k => rw [hb] at h; cases h
+      | ok stk =>
+        rw [hb] at h
+        have hinv := build_inv (Tok.Fix tbl) out [] stk (fun f hf => (hfix _ hf).2 f rfl)
+          (fun t ht => (hfix t ht).1) (by simp) hb
+        match stk, h, hinv with
+        | [e'], h, hinv =>
+          simp only [Except.ok.injEq] at h; subst h
+          obtain ⟨har, hpf⟩ := hinv e' (by simp)
+          refine ⟨?_, fun S => ?_⟩
+          · unfold parsePostfix
+            rw [map_fix hpf, parsePostfixTok_pfx e' har]
+          · have := rpn_pfx S e' har [] []
+            simp only [List.append_nil] at this
+            rw [this]; cases evalTree S e' <;> simp [rpn]
+
 /-! ## ill-formed formulas are rejected (for every token list, not only mutated writings) -/
 
 /-- a formula is loaded only if its operands and arities balance: `Σ (1 − arity) = 1` -/
